@@ -690,6 +690,24 @@ def enumerate_paths(cfg, start, stop, follow_exc=False, max_paths=4000,
                     gvals[0].func.id == 'object' and not gvals[0].args:
                 sentinels.add(gname)
 
+    # markers that leave the local variables (pushed, passed, returned)
+    escaping = set()
+    if sentinels:
+        for x in ast.walk(mod_.tree):
+            if isinstance(x, ast.Name) and x.id in sentinels and isinstance(
+                    x.ctx, ast.Load):
+                par = getattr(x, '_parent', None)
+                if isinstance(par, ast.Compare):
+                    continue
+                if isinstance(par, ast.Assign) and par.value is x and all(
+                        isinstance(t, ast.Name) for t in par.targets):
+                    continue
+                if isinstance(par, ast.IfExp) and x is not par.test and \
+                        isinstance(getattr(par, '_parent', None),
+                                   ast.Assign):
+                    continue
+                escaping.add(x.id)
+
     def feasible(edge, env):
         for (x, pol) in edge.facts:
             if isinstance(x, ast.Name) and x.id in env:
@@ -718,8 +736,18 @@ def enumerate_paths(cfg, start, stop, follow_exc=False, max_paths=4000,
                 isinstance(n.ast.targets[0], ast.Name):
             env = dict(env)
             v_ = n.ast.value
-            env[SENT + n.ast.targets[0].id] = v_.id if isinstance(
-                v_, ast.Name) and v_.id in sentinels else None
+            if isinstance(v_, ast.Name) and v_.id in sentinels:
+                env[SENT + n.ast.targets[0].id] = v_.id
+            elif isinstance(v_, (ast.Constant, ast.List, ast.Tuple, ast.Dict,
+                                 ast.Set, ast.JoinedStr, ast.BinOp,
+                                 ast.Compare, ast.ListComp)):
+                env[SENT + n.ast.targets[0].id] = None  # a fresh value
+            elif not (escaping & sentinels):
+                # no marker of this module is ever stored or passed on
+                env[SENT + n.ast.targets[0].id] = None
+            else:
+                # the marker may come out of a container / call
+                env.pop(SENT + n.ast.targets[0].id, None)
         elif sentinels and n.kind == 'stmt':
             b_, _u = stmt_effects(n)
             if any(SENT + x_ in env for x_ in b_):
